@@ -17,6 +17,10 @@ LEVEL_TEXT = {
  'C10': 'Completion chains, conflicting completion rows and completion inside a submachine explored with queued and deferred events pending; a monitor checks that the completion rows of an entered state are tried before any other event runs.',
  'C11': 'Terminate state and interrupt states (one / two end events) explored to closure with queued and deferred events pending; a model-independent monitor checks that a blocked machine shows no behaviour and no configuration change.',
  'C12': 'Every guard/exit/action/entry position of every reachable step is used as throw point (one faulty operation per history in quick, two in thorough) followed by all continuations to closure; containment, exception_caught contract, policy-prescribed active ids and usability are checked, and the whole exploration is repeated with zero- and pattern-initialised automatic variables and compared record by record.',
+ 'C13': 'The seven back-end configurations are explored in lock-step as one product system: the same operation and the same environment answers (by label) go to every configuration, and the normalised callback sequences, result status, configurations (by name and by id) and pending events must coincide in every product state reached.',
+ 'C17': 'Every reachable configuration of machines with flags on simple states, submachine states and substates (and on terminate/interrupt states) is checked for every flag and operator against the active configuration; the answers are part of the state identity, so path dependence cannot hide; inside behaviours the flags are compared with the policy-defined configuration.',
+ 'C18': 'A machine mixing exact, base-class (2 levels) and Kleene triggers in one state and across a submachine level is explored to closure for every event type, directly, queued and deferred; selection order, the event type seen by each behaviour (any holding the exact type) and payload checksums are compared.',
+ 'C19': 'The same nested machine is compiled under the four policies; every behaviour position of every taken transition reports the active ids, compared with the policy table of the model; the four builds are additionally explored in lock-step and must be indistinguishable apart from those in-behaviour ids.',
  'C09': 'Submachine with direct, fork, entry-point and exit-point rows explored to closure, including the exit point event sent from outside in every configuration.',
 }
 NOTE = 'Trusted: the reference model gen/model.py and oracle gen/oracles.py; the zoo structures (gen/zoo.py) stand for the "programs" quantifier; g++ 12 -O0; private members are only read (-fno-access-control). Bounds: zoo machines, pending queue <= stated bound; residue per DESIGN section 5.'
@@ -53,6 +57,8 @@ def main():
                   'baseline_off_cmd': 'cmake --build /repo/_build --target tests -j 16 && ctest --test-dir /repo/_build -j8 --timeout 900',
                   'source_commits': [], 'add_only': True},
         'engines': [
+            {'name': 'lockstep', 'path': 'gen/lockstep.py + harness/explore.hpp (serve mode)', 'serves_properties': ['C13', 'C19'],
+             'kind_free_text': 'product-state exploration of several real implementations of one description under identical operations and environment answers'},
             {'name': 'explorer', 'path': 'harness/explore.hpp + gen/conform.py + gen/model.py', 'serves_properties': sorted(claimed),
              'kind_free_text': 'explicit-state bounded-exhaustive exploration of the real back-ends (BFS over API calls, DFS over environment answers, canonical state hashing) with reference-model conformance of every execution'},
         ],
